@@ -18,7 +18,7 @@ def run(ck):
             if d == "classic":
                 continue
             if b["compile"] != "OK":
-                if b["compile"].startswith(("PANIC", "ABORT", "TIMEOUT")) and not b["known"]:
+                if b["compile"].startswith(("PANIC", "ABORT")) and not b["known"]:
                     direct.append({"clause": "the compiler crashed or did not return", **L.short(r, d, opt), "result": b["compile"][:200]})
                 continue
             for k, (st, want) in enumerate(r["ref"]):
